@@ -204,7 +204,8 @@ impl Family for C09Family {
                                 p.by_cred = Some(vec![(KeyRef::Cred(IdRef::NthOfRp(0)), v)]);
                             }
                             1 => {
-                                s.allow = Some(vec![IdRef::NthOfRp(0)]);
+                                // sometimes the allow list itself carries a zero-length id
+                                s.allow = Some(if r.bool() { vec![IdRef::NthOfRp(0)] } else { vec![IdRef::Unknown(Vec::new()), IdRef::NthOfRp(0)] });
                                 p.by_cred = Some(vec![(KeyRef::Raw(String::new()), v)]);
                             }
                             2 => {
